@@ -102,7 +102,12 @@ func (it *Interp) Reset() {
 	_ = system.ClearRules()
 	stat.ResetResourceNodeMap()
 	it.caseNo++
-	it.clk.SetMs(startMs + it.caseNo*20_000)
+	// time never goes back between cases (throttling rules make the code sleep on the virtual clock)
+	next := it.clk.CurrentTimeMillis() + 20_000
+	if base := uint64(startMs) + it.caseNo*20_000; base > next {
+		next = base
+	}
+	it.clk.SetMs(next)
 }
 
 func parseVal(s string) interface{} {
@@ -165,6 +170,16 @@ func parseRule(s string) *hotspot.Rule {
 		r.DurationInSec = 1
 		r.Threshold = 1_000_000_000
 		r.ParamsMaxCapacity = 0
+	case "t":
+		// a QPS rule in throttling mode that queues (one token per second and value: a request closer than `batch`
+		// seconds to the previous one for the value gets ShouldWait, the slot sleeps on the virtual clock and goes on)
+		// and never blocks (queueing time far beyond anything a case accumulates)
+		r.MetricType = hotspot.QPS
+		r.ControlBehavior = hotspot.Throttling
+		r.DurationInSec = 1
+		r.Threshold = 1
+		r.MaxQueueingTimeMs = 1_000_000_000
+		r.ParamsMaxCapacity = 0
 	default:
 		panic("bad rule kind " + s)
 	}
@@ -177,7 +192,7 @@ func parseRule(s string) *hotspot.Rule {
 			r.SpecificItems[parseVal(kv[0])] = vh.I(kv[1])
 		}
 	}
-	if p[1] == "q" {
+	if p[1] != "c" {
 		r.SpecificItems = map[interface{}]int64{}
 	}
 	return r
@@ -188,8 +203,11 @@ func doEntry(t []string) (*base.SentinelEntry, string) {
 	res := t[2]
 	var args []interface{}
 	var atts map[interface{}]interface{}
+	batch := int64(-1)
 	for _, s := range t[3:] {
-		if strings.HasPrefix(s, "@") {
+		if strings.HasPrefix(s, "#") {
+			batch = int64(vh.U(s[1:]))
+		} else if strings.HasPrefix(s, "@") {
 			kv := strings.SplitN(s[1:], "=", 2)
 			if len(kv) != 2 {
 				panic("bad attachment " + s)
@@ -203,6 +221,9 @@ func doEntry(t []string) (*base.SentinelEntry, string) {
 		}
 	}
 	var opts []sentinel.EntryOption
+	if batch >= 0 {
+		opts = append(opts, sentinel.WithBatchCount(uint32(batch)))
+	}
 	if len(args) > 0 {
 		opts = append(opts, sentinel.WithArgs(args...))
 	}
